@@ -372,6 +372,35 @@ class MacroGen:
             out += [("##", self.ws()), (self.paste_operand(pastep, False), self.ws())]
         return out
 
+    def deep_chain(self, depth=6):
+        """an invocation nested `depth` deep: every level passes the inner invocation as an argument"""
+        r = self.r
+        funs = [nm for nm, sg in self.sigs.items()
+                if sg[0] is not None and ("n" in sg[2] or (sg[1] and sg[3] == "n"))]
+        if not funs:
+            return [(r.choice(PLAIN), 1)]
+        inner = [(r.choice(PLAIN + NUMS), self.ws())]
+        for _ in range(depth):
+            nm = r.choice(funs)
+            ps, var, roles, varole = self.sigs[nm]
+            kinds = list(roles) + ([varole] if var else [])
+            toks = [(nm, self.ws()), ("(", 0)]
+            placed = False
+            for i, kd in enumerate(kinds):
+                if i:
+                    toks.append((",", self.ws()))
+                if kd == "n" and not placed:
+                    toks += inner
+                    placed = True
+                elif kd == "p":
+                    toks += self.simple_arg(([], []))
+                else:
+                    toks.append((r.choice(PLAIN + NUMS), self.ws()))
+            toks.append((")", self.ws()))
+            inner = toks if placed or not kinds else toks
+        self.hit("deep_chain_%d" % depth)
+        return inner
+
     # ---- invocation text
     def gen_text(self, nlines=None):
         r = self.r
@@ -382,7 +411,9 @@ class MacroGen:
             self.budget = self.profile.get("budget", 12)
             for _ in range(n):
                 k = r.below(10)
-                if k < 7:
+                if k == 0:
+                    toks += self.deep_chain(r.choice([4, 5, 6]))
+                elif k < 7:
                     t = self.macro_ref(0, ([], []))
                     if r.chance(1, 8) and len(t) > 3:
                         j = 2 + r.below(len(t) - 2)
